@@ -908,6 +908,12 @@ func (p *queryPlan) projectAndGroupBy() error {
 		}
 	})
 	// The table needs to be group reduced.
+	if p.tbl.NumRows() == 0 {
+		// No solutions, nothing to group: the result is the empty table. (Neither
+		// ProjectBindings nor Reduce can validate their arguments against a table
+		// without rows, and there is no first row to pick the sum accumulator from.)
+		return nil
+	}
 	// Project only binding involved in the group operation.
 	tmpBindings := []string{}
 	mapBindings := make(map[string]bool)
@@ -953,11 +959,6 @@ func (p *queryPlan) projectAndGroupBy() error {
 				aap.Acc = table.NewCountAccumulator()
 			}
 		case lexer.ItemSum:
-			if p.tbl.NumRows() == 0 {
-				// Nothing to aggregate: Reduce returns early on an empty table, any sum accumulator will do.
-				aap.Acc = table.NewSumInt64LiteralAccumulator(0)
-				break
-			}
 			cell := p.tbl.Rows()[0][prj.Binding]
 			if cell.L == nil {
 				return fmt.Errorf("can only sum int64 and float64 literals; found %s instead for binding %q", cell, prj.Binding)
